@@ -18,7 +18,7 @@ import vlib
 import codec_gen as G
 
 LAYOUT = G.LAYOUT_PATH
-NSHARDS = 4
+NSHARDS = 8
 
 
 # ---------------------------------------------------------------- independent reference walk
@@ -682,6 +682,98 @@ def evaluate(L, W, cases, pid, use_oracle=True):
     return findings, obs
 
 
+# ---------------------------------------------------------------- concurrency
+CONC_GOROUTINES, CONC_ROUNDS, CONC_BATCH = 8, 30, 48
+
+
+def pick_concurrent(cases, obs, seed, count):
+    """a few hundred well-formed values of mixed types that round-trip sequentially (round robin over containers)"""
+    import random
+    rnd = random.Random("%d:concurrency" % seed)
+    per = collections.OrderedDict()
+    for cs, o in zip(cases, obs):
+        if cs["wf"] and o.get("go") == "ok" and cs["size"] <= 2048 and len(cs["tree"]) <= 12000:
+            per.setdefault(cs["name"], []).append(cs)
+    for lst in per.values():
+        rnd.shuffle(lst)
+    out = []
+    names = list(per)
+    rnd.shuffle(names)
+    while len(out) < count and names:
+        for nm in list(names):
+            if per[nm]:
+                out.append(per[nm].pop())
+                if len(out) >= count:
+                    break
+            else:
+                names.remove(nm)
+    rnd.shuffle(out)
+    return out
+
+
+def concurrency_step(L, W, picked, pid, repeats=1):
+    """Encoding/decoding must be a function of the value also when several goroutines marshal at once:
+    batches of DIFFERENT values are marshalled (and their encodings unmarshalled) from several goroutines
+    simultaneously (Go worker: penc/pdec) and every result is compared with the sequential one.
+    -> (list of (signature, what, replay dict), stats)"""
+    stats = dict(values=len(picked), goroutines=CONC_GOROUTINES, rounds=CONC_ROUNDS * repeats, batch=CONC_BATCH,
+                 concurrent_marshals=0, concurrent_unmarshals=0, differing_values=0)
+    if len(picked) < 2:
+        return [], stats
+    seq = W.go(["enc " + cs["tree"] for cs in picked])
+    items = [(cs, a[3:].strip()) for cs, a in zip(picked, seq) if a.startswith("ok")]
+    batches = [items[i:i + CONC_BATCH] for i in range(0, len(items), CONC_BATCH)]
+    reqs = []
+    for _ in range(repeats):
+        for b in batches:
+            reqs.append("penc %d %d %s" % (CONC_GOROUTINES, CONC_ROUNDS, ";".join(cs["tree"] for cs, _ in b)))
+            reqs.append("pdec %d %d %s" % (CONC_GOROUTINES, CONC_ROUNDS, ";".join("%s %s" % (cs["cid"], h or "-") for cs, h in b)))
+    ans = W.go(reqs)
+    out, seen = [], set()
+    k = 0
+    for _ in range(repeats):
+        for b in batches:
+            for mode, a in (("penc", ans[k]), ("pdec", ans[k + 1])):
+                if a in ("skipped",):
+                    continue
+                if not a.startswith("ok "):
+                    sig = "%s-under-concurrency:%s" % ("encode" if mode == "penc" else "decode", a.split(" ")[0])
+                    if sig not in seen:
+                        seen.add(sig)
+                        out.append((sig, "concurrent %s of a batch of %d well-formed values: the worker answered %s" % (
+                            "marshal" if mode == "penc" else "unmarshal", len(b), a[:80]),
+                            dict(kind="codec-concurrency", mode=mode, cases=[dict(tree=cs["tree"]) for cs, _ in b]), a.startswith(("hang", "panic", "died"))))
+                    continue
+                parts = a[3:].split(";")
+                if len(parts) != len(b):
+                    continue
+                stats["concurrent_marshals" if mode == "penc" else "concurrent_unmarshals"] += len(b) * CONC_GOROUTINES * CONC_ROUNDS
+                for (cs, h), got in zip(b, parts):
+                    want = (h or "-") if mode == "penc" else cs["tree"]
+                    if got == want:
+                        continue
+                    stats["differing_values"] += 1
+                    sig = ("bytes-differ-under-concurrency:" if mode == "penc" else "decode-differs-under-concurrency:") + cs["name"]
+                    if sig in seen:
+                        continue
+                    seen.add(sig)
+                    others = [x for x in got.split("|") if x != want]
+                    if mode == "penc":
+                        o0 = others[0] if others else got
+                        off = first_diff(want, o0) // 2 if o0 not in ("err", "panic") else -1
+                        what = ("%s: marshalling this value while %d goroutines marshal a batch of %d different values gives %d distinct encodings; "
+                                "sequential %s…, concurrent %s… (first difference at offset %d)"
+                                % (cs["name"], CONC_GOROUTINES, len(b), len(got.split("|")), want[:48], o0[:48], off))
+                    else:
+                        what = ("%s: unmarshalling its encoding while %d goroutines unmarshal a batch of %d different encodings gives %d distinct results (%s)"
+                                % (cs["name"], CONC_GOROUTINES, len(b), len(got.split("|")), (others[0] if others else got)[:120]))
+                    out.append((sig, what, dict(kind="codec-concurrency", mode=mode, container=cs["name"], tree=cs["tree"],
+                                                goroutines=CONC_GOROUTINES, rounds=CONC_ROUNDS, sequential=want[:4000],
+                                                observed=got[:8000], cases=[dict(tree=c2["tree"]) for c2, _ in b]), True))
+            k += 2
+    return out, stats
+
+
 # ---------------------------------------------------------------- shrinking
 def shrink_candidates(L, c, v):
     """one-step simplifications of v (trees), smaller first"""
@@ -1006,6 +1098,27 @@ def run(pid, tier, seed, replay, title_assumptions):
                            original_tree=cs["tree"] if len(cs["tree"]) < 20000 else None, seen_as=via,
                            case_kind=cs["kind"], cases=[dict(tree=tree)]), found)
     t_shrink = time.time() - t0
+
+    # ---- concurrency: the same values, marshalled / unmarshalled from several goroutines at once
+    t0 = time.time()
+    if replay:
+        picked = [cs for cs, o in zip(cases, obs) if cs["wf"] and o.get("go") == "ok"]
+        conc, conc_stats = concurrency_step(L, W, picked, pid, repeats=10)
+    else:
+        picked = pick_concurrent(cases, obs, seed, 1536 if tier == "thorough" else 384)
+        conc, conc_stats = concurrency_step(L, W, picked, pid, repeats=3 if tier == "thorough" else 1)
+    n_enc = sum(1 for x in conc if x[0].startswith("bytes-differ"))
+    n_dec = sum(1 for x in conc if x[0].startswith("decode-differs"))
+    shown = collections.Counter()
+    for sig, what, rp, found in sorted(conc, key=lambda x: x[0]):      # by container name: the same few are reported run after run
+        cls = sig.split(":")[0]
+        shown[cls] += 1
+        if shown[cls] > 3:
+            continue            # one cause, many containers: three witnesses per class are enough
+        if shown[cls] == 1 and max(n_enc, n_dec) > 1:
+            what += " [%d container types affected in this run]" % (n_enc if cls.startswith("bytes") else n_dec)
+        res.violation(sig, what, rp, found)
+    t_conc = time.time() - t0
     for r in W.dead[:3]:
         res.notes.append("Go worker died on: " + r[:300])
     if W.skipped:
@@ -1064,6 +1177,8 @@ def run(pid, tier, seed, replay, title_assumptions):
             note="json_text: json.Marshal's text, parsed by python's json module and printed canonically, vs Json.to_json; "
                  "json_roundtrip: json.Unmarshal(json.Marshal v) vs Json.of_json (Json.to_json v), also where invalid UTF-8 is replaced by U+FFFD",
         )) if pid == "C01" else {}),
+        concurrency=dict(conc_stats, note="batches of different values marshalled (penc) and their encodings unmarshalled (pdec) "
+                         "from several goroutines at once; every result must equal the sequential one", seconds=round(t_conc, 1)),
         trusted_base=res.assumptions,
         timing=dict(proof_s=round(t_proof, 1), generate_s=round(t_gen, 1), evaluate_s=round(t_eval, 1), shrink_s=round(t_shrink, 1),
                     go_worker_s=round(W.go_time, 1), oracle_s=round(W.oracle_time, 1)),
